@@ -30,6 +30,9 @@ import (
 // PSK is the key used by SS2022 servers and harness clients.
 var PSK = []byte("0123456789abcdef")
 
+// UpstreamPSK is the key between the relay's outgoing SS2022 client and the harness upstream.
+var UpstreamPSK = []byte("fedcba9876543210")
+
 // Spec selects the relay under test.
 type Spec struct {
 	Server      string // direct none socks5 ss2022
@@ -37,7 +40,8 @@ type Spec struct {
 	NATTimeout  string // e.g. "60s"
 	DefaultUDP  string // router default: "" (the direct client) or "reject"
 	SendChanCap int
-	TargetOnly  bool // direct tunnel: tunnelUDPTargetOnly
+	TargetOnly  bool   // direct tunnel: tunnelUDPTargetOnly
+	Client      string // outgoing client: "" / direct, none, ss2022 (towards a harness upstream proxy)
 }
 
 // Env is one instance of the services.
@@ -48,6 +52,7 @@ type Env struct {
 	Server   netip.AddrPort
 	started  []shadowsocks.Service
 	Tunnel   netip.AddrPort
+	Upstream netip.AddrPort // address of the harness upstream proxy (outgoing clients other than direct)
 }
 
 // IP returns 127.A.B.last.
@@ -77,9 +82,17 @@ func New(sp Spec) (*Env, error) {
 	case "ss2022":
 		srv["psk"] = base64.StdEncoding.EncodeToString(PSK)
 	}
+	e.Upstream = netip.AddrPortFrom(e.IP(200), 8000)
+	cl := map[string]any{"name": "c", "protocol": "direct", "network": "ip4", "enableUDP": true, "mtu": 1500}
+	switch sp.Client {
+	case "none":
+		cl = map[string]any{"name": "c", "protocol": "none", "network": "ip4", "endpoint": e.Upstream.String(), "enableUDP": true, "mtu": 1500}
+	case "ss2022":
+		cl = map[string]any{"name": "c", "protocol": "2022-blake3-aes-128-gcm", "network": "ip4", "endpoint": e.Upstream.String(), "enableUDP": true, "mtu": 1500, "psk": base64.StdEncoding.EncodeToString(UpstreamPSK)}
+	}
 	cfg := map[string]any{
 		"servers": []any{srv},
-		"clients": []any{map[string]any{"name": "c", "protocol": "direct", "network": "ip4", "enableUDP": true, "mtu": 1500}},
+		"clients": []any{cl},
 	}
 	if sp.DefaultUDP != "" {
 		cfg["router"] = map[string]any{"defaultUDPClientName": sp.DefaultUDP}
@@ -304,4 +317,110 @@ func (t *Target) Payloads() string {
 		p = append(p, fmt.Sprintf("%q", g.Payload))
 	}
 	return strings.Join(p, ",")
+}
+
+// UpGot is one datagram seen by the upstream proxy.
+type UpGot struct {
+	Payload string
+	Target  string // the destination carried inside the proxy protocol
+	From    netip.AddrPort
+}
+
+// UpstreamProxy plays the proxy server the relay's outgoing client talks to: it
+// unpacks every datagram with the repository's own server-side unpackers,
+// records the destination carried inside, and answers "echo:<payload>" claiming
+// a source derived from that destination.
+type UpstreamProxy struct {
+	e     *Env
+	Sock  *net.UDPConn
+	Proto string
+	Got   []UpGot
+	// ClaimedSource maps a carried destination to the source attached to the reply
+	ClaimedSource func(target conn.Addr) netip.AddrPort
+}
+
+// NewUpstream opens the upstream proxy socket.
+func (e *Env) NewUpstream() *UpstreamProxy {
+	return &UpstreamProxy{e: e, Proto: e.Spec.Client, Sock: vudp.Listen(e.Upstream.String(), "upstream")}
+}
+
+// Close closes the upstream socket.
+func (u *UpstreamProxy) Close() { vudp.UDP_Close(u.Sock) }
+
+// Serve handles datagrams until the socket is closed.
+func (u *UpstreamProxy) Serve() {
+	type sess struct {
+		unp zerocopy.ServerUnpacker
+		pk  zerocopy.ServerPacker
+	}
+	var ssSrv *ss2022.UDPServer
+	if u.Proto == "ss2022" {
+		ucc, err := ss2022.NewUserCipherConfig(UpstreamPSK, true)
+		if err != nil {
+			panic(err)
+		}
+		ssSrv = ss2022.NewUDPServer(0, ucc, ss2022.ServerIdentityCipherConfig{}, ss2022.NoPadding)
+	}
+	byAddr := map[netip.AddrPort]*sess{}
+	byCSID := map[uint64]*sess{}
+	const front = 300
+	for {
+		buf := make([]byte, 4096)
+		n, from, err := vudp.UDP_ReadFromUDPAddrPort(u.Sock, buf[front:])
+		if err != nil {
+			return
+		}
+		var s *sess
+		switch u.Proto {
+		case "none":
+			s = byAddr[from]
+			if s == nil {
+				unp, _ := direct.ShadowsocksNoneUDPNATServer{}.NewUnpacker()
+				s = &sess{unp: unp}
+				byAddr[from] = s
+			}
+		case "ss2022":
+			csid, err := ssSrv.SessionInfo(buf[front : front+n])
+			if err != nil {
+				continue
+			}
+			s = byCSID[csid]
+			if s == nil {
+				unp, _, err := ssSrv.NewUnpacker(buf[front:front+n], csid)
+				if err != nil {
+					continue
+				}
+				s = &sess{unp: unp}
+				byCSID[csid] = s
+			}
+		}
+		target, ps, pl, err := s.unp.UnpackInPlace(buf, from, front, n)
+		if err != nil {
+			u.Got = append(u.Got, UpGot{Payload: "unpack-error: " + err.Error(), From: from})
+			continue
+		}
+		payload := string(buf[ps : ps+pl])
+		u.Got = append(u.Got, UpGot{Payload: payload, Target: target.String(), From: from})
+		if s.pk == nil {
+			if s.pk, err = s.unp.NewPacker(); err != nil {
+				continue
+			}
+		}
+		src := netip.AddrPortFrom(netip.AddrFrom4([4]byte{203, 0, 113, 9}), target.Port())
+		if target.IsIP() {
+			src = target.IPPort()
+		} else if u.ClaimedSource != nil {
+			src = u.ClaimedSource(target)
+		}
+		out := make([]byte, 4096)
+		reply := "echo:" + payload
+		copy(out[front:], reply)
+		rs, rl, err := s.pk.PackInPlace(out, src, front, len(reply), 1472)
+		if err != nil {
+			continue
+		}
+		if _, err := vudp.UDP_WriteToUDPAddrPort(u.Sock, out[rs:rs+rl], from); err != nil {
+			return
+		}
+	}
 }
